@@ -143,6 +143,22 @@ func c20Continuation(us []sdk.AccAddress) []c20Op {
 				l, _ := a.LockerKeeper.GetLocker(c, 2)
 				return l.NetBalance.String() + "/" + l.ReturnsAccumulated.String()
 			})},
+		{"locker_deposit_zero_rate_history", func(a *chain.App, c sdk.Context) string {
+			// locker 6 was opened while the saving rate was zero; the rate was switched on later: the savings paid now run from the
+			// lookup record's BlockTime
+			var id uint64
+			for _, l := range a.LockerKeeper.GetLockers(c) {
+				if l.Depositor == us[3].String() && l.AssetDepositId == 2 {
+					id = l.LockerId
+				}
+			}
+			ok, d := c20Deliver(a, c, lockertypes.NewMsgDepositAssetRequest(us[3].String(), id, sdk.NewInt(1000), 2, 2))
+			if !ok {
+				c20Verbose("locker_deposit_zero_rate_history: %s", d)
+			}
+			l, _ := a.LockerKeeper.GetLocker(c, id)
+			return fmt.Sprintf("%t/%s/%s", ok, l.NetBalance, l.ReturnsAccumulated)
+		}},
 		{"locker_close", m(func() sdk.Msg { return lockertypes.NewMsgCloseLockerRequest(us[1].String(), 2, 3, 2) },
 			func(a *chain.App, c sdk.Context) string {
 				_, found := a.LockerKeeper.GetLocker(c, 2)
